@@ -154,7 +154,17 @@ func runPubSubSession(seed uint64, idx int) (string, []string, string) {
 			steps = append(steps, fmt.Sprintf("(PPub %s, %s)", coqfmt.Nat(e), observe()))
 			log = append(log, fmt.Sprintf("pub %d", e))
 		case 3:
-			gotime.Sleep(260 * gotime.Millisecond)
+			// at least two publisher windows, then until nothing has moved for two more (bounded)
+			gotime.Sleep(230 * gotime.Millisecond)
+			last := observe()
+			for k := 0; k < 20; k++ {
+				gotime.Sleep(120 * gotime.Millisecond)
+				cur := observe()
+				if cur == last {
+					break
+				}
+				last = cur
+			}
 			steps = append(steps, fmt.Sprintf("(PTick, %s)", observe()))
 			log = append(log, "tick")
 			for e, must := range pendingEvents {
@@ -260,7 +270,7 @@ func pubsubStress(seed uint64, dur gotime.Duration, withStalls bool) stressRepor
 				estMu.Lock()
 				established[e] = true
 				estMu.Unlock()
-				gotime.Sleep(gotime.Duration(r.Range(50, 1200)) * gotime.Millisecond)
+				gotime.Sleep(gotime.Duration(r.Range(200, 2500)) * gotime.Millisecond)
 				estMu.Lock()
 				delete(established, e)
 				estMu.Unlock()
@@ -311,10 +321,10 @@ func pubsubStress(seed uint64, dur gotime.Duration, withStalls bool) stressRepor
 	gotime.Sleep(dur)
 	close(stop)
 	wg.Wait()
-	gotime.Sleep(400 * gotime.Millisecond)
+	gotime.Sleep(1500 * gotime.Millisecond)
 	// judge: a subscription established before Publish was called whose Unsubscribe started
 	// later than the bound after the call must have the event (stalled consumers excepted: closed or not read)
-	const bound = int64(350 * gotime.Millisecond)
+	const bound = int64(1200 * gotime.Millisecond)
 	for _, pr := range pubs {
 		rep.publishes++
 		if withStalls {
